@@ -56,6 +56,8 @@ fn dispatch(name: &str, s: &mut src::ReplaySrc) -> bool {
         "divide_segment_bump_f32" => divide::divide_segment_bump_f32_body(s),
         "divide_segment_n2prime_instance" => divide::divide_segment_n2prime_instance_body(s),
         "divide_segment_n2_instance" => divide::divide_segment_n2_instance_body(s),
+        "divide_segment_instance_interior" => divide::divide_segment_instance_body(s, 0),
+        "divide_segment_instance_swap" => divide::divide_segment_instance_body(s, 1),
         "divide_segment_contract_f64" => divide::divide_segment_contract_body::<f64, _>(s),
         "divide_segment_contract_f32" => divide::divide_segment_contract_body::<f32, _>(s),
         "trivial_ysep_difference_f64" => queue::trivial_result_body::<f64, _>(s, 3, 1),
